@@ -166,9 +166,25 @@ func toolchain() string { return runtime.Version() }
 // operation in the instrumented library (0 on a tree without any).
 var nHotSites int
 
+// harvested are the integer constants found in the library source (simctl
+// writes them to $GEOSIM_CONSTS): a dictionary of plausible thresholds.
+var harvested []int
+
+func loadConstants() {
+	p := os.Getenv("GEOSIM_CONSTS")
+	if p == "" {
+		return
+	}
+	var cs []int
+	if err := readJSONFile(p, &cs); err == nil {
+		harvested = cs
+	}
+}
+
 // loadHotSites reads the list written by simctl ($GEOSIM_HOT). Call after
 // verifsim.SetSites.
 func loadHotSites() {
+	loadConstants()
 	p := os.Getenv("GEOSIM_HOT")
 	if p == "" {
 		return
@@ -233,7 +249,7 @@ func cmdBatch(args []string) int {
 		spec.Free = *free
 		rr := runSpec(spec, func(solo int64) { finalizeSchedule(spec, rng, fset, solo) }, rl)
 		progressBump()
-		if *auditEvery > 0 && (run%*auditEvery == 0 || (spec.Siblings && run%3 == 0)) && len(rr.Violations) == 0 && !spec.Free {
+		if *auditEvery > 0 && (run%*auditEvery == 0 || (spec.Siblings && run%5 == 0)) && len(rr.Violations) == 0 && !spec.Free {
 			if vs, err := auditHistory(spec, rr, *nsites, *out); err != nil {
 				rep.Infra = append(rep.Infra, err.Error())
 			} else {
